@@ -10,5 +10,7 @@ CONSTANTS
   BodyPanics = TRUE
   BodyUsesPool = FALSE
   JoinerOnPool = FALSE
+  ReceiverDrops = FALSE
+  SkipIfReceiverGone = FALSE
 SPECIFICATION Spec
-INVARIANTS TypeOK ExactlyOnce ResultDelivery JoinedFirst SeqNoOverlap SeqAllFinished ConcNothingLeft JoinAfterExit
+INVARIANTS TypeOK ExactlyOnce ResultDelivery JoinedFirst SeqNoOverlap SeqAllFinished AllStartedAtJoin ConcNothingLeft JoinAfterExit
